@@ -1,4 +1,4 @@
-CONSTANTS SegMax = 3  NodeId = 1  Walk = FALSE  WalkLen = 0  ProbeKind = "full"  PumpN = 40  ProbeReset = FALSE
+CONSTANTS SegMax = 3  NodeId = 1  Walk = FALSE  WalkLen = 0  ProbeKind = "full"  PumpN = 40  ProbeReset = FALSE  ProbeB = TRUE
 CONSTANT Dict <- MCDict  Mux <- MCMux  Letters <- LettersFull
 INIT Init
 NEXT Next
